@@ -5,6 +5,9 @@ so an expression object is never shared between two queries built by the harness
 """
 from __future__ import annotations
 
+import json
+import os
+
 from dataclasses import dataclass, field
 from typing import Any, List, Optional
 
@@ -33,10 +36,36 @@ def make_container(objs, idxs, kind):
     return items
 
 
+def _build_leaf(c, V):
+    if c[0] == "cmp":
+        return OPS[c[1]](build_term(c[2], V), build_term(c[3], V))
+    item, cont = build_term(c[2], V), build_term(c[3], V)
+    return in_(item, cont) if c[1] == "in_" else contains(cont, item)
+
+
+class Vars(list):
+    """The declared variables; with `memo` set, equal mapping terms (x.a, x.tags[0], x.val()) are built ONCE and the same
+    expression object is used at every occurrence - what `f = x.a; and_(f > 0, f < 3)` does."""
+    memo = None
+    cmemo = None
+    cused = None
+
+
 def build_term(t, V):
     k = t[0]
     if k == "var":
         return V[t[1]]
+    memo = getattr(V, "memo", None)
+    if memo is not None and k in ("attr", "idx", "call"):
+        key = json.dumps(t, sort_keys=True)
+        if key not in memo:
+            memo[key] = _build_term(t, V)
+        return memo[key]
+    return _build_term(t, V)
+
+
+def _build_term(t, V):
+    k = t[0]
     if k == "attr":
         return getattr(build_term(t[1], V), t[2])
     if k == "idx":
@@ -72,12 +101,28 @@ def _chain(fn_nary, binop, form, parts):
 def build_cond(c, V):
     """Must be called inside symbolic_mode()."""
     k = c[0]
-    if k == "cmp":
-        return OPS[c[1]](build_term(c[2], V), build_term(c[3], V))
-    if k == "in":
-        item, cont = build_term(c[2], V), build_term(c[3], V)
-        return in_(item, cont) if c[1] == "in_" else contains(cont, item)
+    cmemo = getattr(V, "cmemo", None)
+    if cmemo is not None and k in ("cmp", "in"):
+        # comparison objects built once and used in two queries (c = x.a == 1; q1 = ...or_(c, d)...; q2 = ...for_all(u, c)...)
+        # (one object is never used twice within ONE query: V.cused is cleared between the two queries)
+        key = json.dumps(c, sort_keys=True)
+        if key in V.cused:
+            return _build_leaf(c, V)
+        V.cused.add(key)
+        if key not in cmemo:
+            cmemo[key] = _build_leaf(c, V)
+        return cmemo[key]
+    if k in ("cmp", "in"):
+        return _build_leaf(c, V)
     if k == "truth":
+        memo = getattr(V, "memo", None)
+        if memo is not None and c[1][0] in ("attr", "idx", "call"):
+            # a condition-position occurrence may share its object with value-position occurrences, but one object is
+            # never used as a condition TWICE (not_() rewrites its operands in place)
+            key = "truth:" + json.dumps(c[1], sort_keys=True)
+            if key in memo:
+                return _build_term(c[1], V)
+            memo[key] = True
         return build_term(c[1], V)
     if k == "fpred":
         fn = FUNC_PREDS[c[1]][0]
@@ -140,6 +185,9 @@ def declare_vars(case, objs, containers=None):
                 v = cls(From(cont), **{f: dec(c) for f, c in vd.get("kw", [])})
         V.append(v)
         conts.append(cont)
+    if case.get("share_terms") or os.environ.get("EQLV_FORCE_SHARE"):
+        V = Vars(V)
+        V.memo = {}
     return V, conts
 
 
@@ -177,6 +225,24 @@ def build_query(case, objs, containers=None, negate: int = 0, quant: Optional[st
     ``negate`` wraps the whole condition in that many negations (used by C03).
     """
     V, conts = declare_vars(case, objs, containers)
+    if case.get("prelude_sharing_comparisons") is not None:
+        # an EARLIER query over the same variables and the same selection that contains the same comparison OBJECTS
+        if not isinstance(V, Vars):
+            V = Vars(V)
+        V.cmemo, V.cused = {}, set()
+        pre = build_over(V, dict(case, cond=case["prelude_sharing_comparisons"], split_top=False, quant="an"), conts=conts)
+        for _ in pre.q.evaluate():
+            pass
+        V.cused = set()
+    if case.get("prelude") is not None:
+        # an EARLIER query over the same variables and the same selection, built from the same mapping expression
+        # objects (f = x.a used in two queries), is evaluated to completion first; what it returns is not looked at
+        if getattr(V, "memo", None) is None:
+            V = Vars(V)
+            V.memo = {}
+        pre = build_over(V, dict(case, cond=case["prelude"], split_top=False, quant="an"), conts=conts)
+        for _ in pre.q.evaluate():
+            pass
     return build_over(V, case, negate, quant, negate_desc, neg_form, conts)
 
 
